@@ -837,6 +837,8 @@ fn supervise(ctx: &mut Ctx, prop: &str, seed: u64, from: u64, to: u64, stride: u
     let mut next_job = from;
     let mut skip = 0u64;
     let mut restarts = 0u64;
+    // the job whose BEGIN line has been written and whose END line has not (survives child restarts)
+    let mut cur_job: Option<u64> = None;
     while next_job < to {
         if let Some(d) = deadline {
             if std::time::Instant::now() > d {
@@ -893,7 +895,6 @@ fn supervise(ctx: &mut Ctx, prop: &str, seed: u64, from: u64, to: u64, stride: u
             libc::close(err_fds[1]);
             (std::fs::File::from_raw_fd(out_fds[0]), std::fs::File::from_raw_fd(err_fds[0]))
         };
-        let mut cur_job: Option<u64> = None;
         let mut in_flight: Option<(u64, u64, Value)> = None; // (job, eval idx, case)
         let mut last_done_eval: Option<(u64, u64)> = None;
         let mut done_at: Option<u64> = None;
